@@ -73,12 +73,21 @@ TranslOk(ev, k, src) ==
          [] r[1] = "err" /\ r[2] = "translate" -> TRUE
          [] OTHER -> FALSE
 
+\* annotations (style bit 2 of the renderers: two on every non-empty namespace, common type, entity type, action):
+\* every fragment - rendered, translated, re-translated - carries exactly those, with the same keys and values
+AnnCount(s) == Cardinality(DOMAIN s \ {""}) + Cardinality(ScuComPairs(s)) + Cardinality(ScuEntPairs(s)) + Cardinality(ScuActPairs(s))
+AnnOk(ev, s) ==
+  LET want == IF (ev.style \div 4) % 2 = 1 THEN 2 * AnnCount(s) ELSE 0
+  IN /\ \A k \in DOMAIN ev.ann : Len(ev.ann[k]) = want
+     /\ \A k1, k2 \in DOMAIN ev.ann : ev.ann[k1] = ev.ann[k2]
+
 Core(ev, withJC) ==
   LET s == SsFromWire(ev.s)
       ok == ScOk(s)
       exp == ScCanon(ScResolve(s))
       cx == ScCedarExpressible(s)
   IN /\ Has(ev, "J") /\ Has(ev, "C")
+     /\ AnnOk(ev, s)
      /\ IF ok THEN Loaded(ev, "J") /\ PrOf(ev, "J") = exp ELSE ~Loaded(ev, "J")
      /\ (ev.steps["C"][1] = "na") <=> ~cx
      /\ cx => (IF ok THEN Loaded(ev, "C") /\ PrOf(ev, "C") = exp ELSE ~Loaded(ev, "C"))
